@@ -185,10 +185,7 @@ func checkRecovery(rp RecoveryReplay, rec *crashRecorder) (v *Violation) {
 	sub.stats.GCKinds = map[string]bool{}
 	defer func() {
 		if sub.s != nil {
-			func() {
-				defer func() { recover() }()
-				sub.s.Close()
-			}()
+			closeQuietly(sub.s)
 		}
 	}()
 	v = guard(-1, "recovery-open", func() *Violation {
